@@ -5,6 +5,8 @@ import Inkayaku.Model.Generate
 import Inkayaku.Model.SpecOps
 import Inkayaku.Model.Pgn
 import Inkayaku.Model.Uci
+import Inkayaku.Model.SessionOps
+import Inkayaku.Model.Lichess
 /-!
 `modeldriver`: the model side of the line protocol.  `modeldriver run` reads one request per line from stdin and
 writes one canonical answer per line.  Imports Model/Spec/Gen only (no Mathlib), so it links as a native executable.
@@ -38,7 +40,7 @@ def dispatch (op : String) (args : List String) : String :=
   | "scorefromvalue" => ChessOps.handleScoreFromValue args
   | "magic" => ChessOps.handleMagic args
   | "succ" => ChessOps.handleSucc args
-  | "wf" => (match args with | [f] => ChessOps.withBoard f (fun b => if Generate.wf b then "1" else "0") | _ => "bad-request")
+  | "wf" => (match args with | [f] => ChessOps.withBoard f (fun b => if WF.wf b then "1" else "0") | _ => "bad-request")
   | "spec:legal" => SpecOps.handleLegal args
   | "spec:succ" => SpecOps.handleSucc args
   | "spec:incheck" => SpecOps.handleInCheck args
@@ -52,6 +54,8 @@ def dispatch (op : String) (args : List String) : String :=
   | "spec:finduci-all" => SpecOps.handleFindUciAll args
   | "spec:sanmv" => SpecOps.handleSanMv args
   | "spec:gamesan" => SpecOps.handleGameSan args
+  | "session" => SessionOps.handleSession args
+  | "json" => Lichess.handleJson args
   | "pgn" => Pgn.handlePgn args
   | "uciparse" => Uci.handleUciParse args
   | "ucimove" => Uci.handleUciMove args
